@@ -45,16 +45,19 @@ fn addr_of(i: usize) -> u32 {
 }
 
 fn sched_strategy() -> BoxedStrategy<Sched> {
-    let d = proptest::sample::select(vec![1i64, 5, 60, 600]);
+    let d = prop_oneof![4 => Just(1i64), 4 => Just(5i64), 4 => Just(60i64), 4 => Just(600i64), 1 => Just(1i64 << 32), 1 => Just((1i64 << 33) + 5)];
     (d, any::<bool>(), prop_oneof![3 => Just(None), 1 => proptest::sample::subsequence(vec![0u32, 4, 5, 11, 16, 17, 18, 20, 21], 1..6).prop_map(Some)], prop_oneof![4 => 2usize..=6, 1 => 15usize..=40])
         .prop_flat_map(|(d, u, f, nac)| {
+            // for the huge limits the silences are those of a 60 s limit: nothing may ever expire
+            let dd = d;
+            let d = if d > 1_000_000 { 60 } else { d };
             let silence = proptest::sample::select(vec![0i64, 1000, (d - 2).max(0) * 1000, (d - 1).max(0) * 1000, d * 1000 - 350, d * 1000 - 600, d * 1000, d * 1000 + 1, d * 1000 + 400, (d + 1) * 1000, 2 * d * 1000]);
             let frame = (0..nac).prop_flat_map(|i| alphabet::frame_any(addr_of(i)).prop_map(move |f| Ev::F(addr_of(i), f)));
             // bursts of one chatty aircraft make sweeps happen
             let burst = (0..nac, 12usize..30).prop_flat_map(|(i, n)| proptest::collection::vec(alphabet::frame_any(addr_of(i)).prop_map(move |f| Ev::F(addr_of(i), f)), n..n + 1));
             let ev = prop_oneof![6 => frame.prop_map(|e| vec![e]), 3 => silence.prop_map(|s| vec![Ev::S(s)]), 2 => burst];
             let len = if nac > 6 { 20..60 } else { 4..40 };
-            (Just(d), Just(u), Just(f), proptest::collection::vec(ev, len))
+            (Just(dd), Just(u), Just(f), proptest::collection::vec(ev, len))
         })
         .prop_map(|(d, u, f, evs)| Sched { opts: Opts { d, u, f, ..Opts::default() }, evs: evs.into_iter().flatten().collect() })
         .boxed()
@@ -220,7 +223,7 @@ fn run(c: &mut Ctx) {
                 }
                 c.class_n("fresh_rows_checked", st.fresh_rows_checked);
                 c.class_n("expiries", st.expiries);
-                c.class(&format!("delete_after_{}", s.opts.d));
+                c.class(&format!("delete_after_{}", if s.opts.d > 1_000_000 { "2^32_or_more".to_string() } else { s.opts.d.to_string() }));
                 if s.opts.f.is_some() { c.class("with_filter"); }
                 if r.is_ok() && c.want_sample() && st.expiries >= 1 && s.evs.len() < 30 {
                     c.sample(json!({"opts": s.opts.label(), "events": s.evs.iter().map(|e| match e { Ev::F(a, f) => format!("{:06X} DF{} {}", a, f.df(), f.hex()), Ev::S(n) => format!("silence {} ms", n) }).collect::<Vec<_>>()}));
